@@ -5,9 +5,11 @@ import (
 	"fmt"
 	"go/token"
 	"go/types"
+	"net/url"
 	"sort"
 	"strings"
 	"testing"
+	"time"
 
 	"github.com/octohelm/gengo/pkg/gengo"
 	"github.com/octohelm/gengo/pkg/gengo/snippet"
@@ -46,7 +48,7 @@ var c3Segments = []string{
 	"2fa", "9", "3d", "b-c", "b_c", "b.c", "bc", "_y", "-z", "__", "--", "_", "json", "template", "rand", "http", "errors", "fmt", "os",
 	"B", "Foo", "fooBar", "ID", "é", "中文", "x.v1", "yaml.v3",
 	// elements that merely contain "vendor" (a vendored path has a whole element "vendor")
-	"multivendor", "vendors", "vendor-x", "myvendor",
+	"multivendor", "vendors", "vendor-x", "myvendor", "c++", "a+b", "x~y",
 }
 
 var c3Hosts = []string{"example.com", "github.com", "k8s.io", "gopkg.in", "a.b.c", "golang.org/x"}
@@ -290,6 +292,36 @@ func oracleC03Tracker(c c3Case) error {
 	}
 	if err := c3RenderFile(c, second, built, usedBy); err != nil {
 		return fmt.Errorf("second file (target %s, same snippet values): %w", second, err)
+	}
+	return c3ValueImports(c.Target)
+}
+
+// c3ValueImports: value literals of nil/empty collections and pointers over foreign named types - whatever text is chosen for
+// them, a package is imported iff the text mentions it
+func c3ValueImports(target string) error {
+	for _, v := range []any{
+		[]time.Duration(nil), []time.Duration{}, map[string]*url.URL(nil), map[time.Month]bool{}, (*url.URL)(nil), [0]time.Month{},
+		struct{ A []time.Duration }{}, []*url.Userinfo(nil),
+	} {
+		tracker := namer.NewDefaultImportTracker()
+		buf := &bytes.Buffer{}
+		w := gengo.NewSnippetWriter(buf, namer.NameSystems{"raw": namer.NewRawNamer(target, tracker)})
+		if p := ev.Panics(func() { w.Render(snippet.Value(v)) }); p != nil {
+			return fmt.Errorf("rendering the value %#v panics: %v", v, p)
+		}
+		text := buf.String()
+		for path, name := range tracker.Imports() {
+			if !strings.Contains(text, name+".") {
+				return fmt.Errorf("the value %#v renders as %q, which does not mention %q, yet that package is imported (as %s)", v, text, path, name)
+			}
+		}
+		for _, q := range []string{"time", "url"} {
+			if strings.Contains(text, q+".") {
+				if _, ok := tracker.PathOf(q); !ok {
+					return fmt.Errorf("the value %#v renders as %q, but the qualifier %q is not bound by the import table %v", v, text, q, tracker.Imports())
+				}
+			}
+		}
 	}
 	return nil
 }
